@@ -42,7 +42,7 @@ Proof. reflexivity. Qed.
 Lemma gen_clear r : g_clear r = empty_reg.
 Proof. reflexivity. Qed.
 
-(* first complete evaluation of let(T, None): what step does for QueryE; later evaluations: ReEval *)
+(* first complete evaluation of let(T, None): what step does for QueryE; later evaluations: EvalV on a cached variable *)
 Lemma gen_eval_fresh children fuel L r T :
   g_eval_fresh children fuel L r T =
   (sweep L r, instances children fuel L (sweep L r) T, dedup (somes (instances children fuel L (sweep L r) T))).
